@@ -178,7 +178,8 @@ Definition class_changed (w : world) (n : nat) (corder : list nat) : world :=
 
 (* ---- generics ---------------------------------------------------------------------------- *)
 Definition get_gf (w : world) (k : nat) : gf := match lookup (gfs w) k with Some g => g | None => gf0 end.
-(* Aux.AddMethod: methods[key] = m; the cache is dropped *)
+(* addMethodCaller (defmethod, accessor methods) / Aux.AddMethod: the method is stored under the class name and
+   the cache of THIS generic is dropped *)
 Definition add_method (w : world) (k c : nat) : world :=
   let g := get_gf w k in
   with_gfs w (set_assoc (gfs w) k (mkGF (if memb c (g_methods g) then g_methods g else c :: g_methods g) [])).
